@@ -106,6 +106,7 @@ func (p *parser) locateKeyName(src string) (string, string, bool, error) {
 
 	// locate key name end and validate it in single loop
 	offset := 0
+	terminated := false
 loop:
 	for i, rune := range src {
 		if isSpace(rune) {
@@ -118,6 +119,7 @@ loop:
 			key = string(src[0:i])
 			offset = i + 1
 			inherited = rune == '\n'
+			terminated = true
 			break loop
 		case '_', '.', '-', '[', ']':
 		default:
@@ -134,6 +136,13 @@ loop:
 
 	if src == "" {
 		return "", "", inherited, errors.New("zero length string")
+	}
+
+	if !terminated {
+		// last line without a line break and without a separator: a bare key, inherited from the lookup
+		key = src
+		offset = len(src)
+		inherited = true
 	}
 
 	if inherited && strings.IndexByte(key, ' ') == -1 {
